@@ -124,6 +124,7 @@ type world struct {
 	got     map[string]string
 	visited []kv
 	entered int
+	upSet   []setInstr        // cookies a middleware registered IN FRONT of encryptcookie puts on the response before c.Next()
 	rawSet  []string          // raw Set-Cookie lines the handler writes itself (c.Set), e.g. taken over from an upstream
 	failSet int               // != 0: the setting handler returns fiber.NewError(failSet) after setting the cookies
 	bind    bool              // also record the cookie binder's view (it iterates VisitAllCookie)
@@ -146,6 +147,17 @@ func newAppCfg(fc fiber.Config, key string, except []string, withMW bool, w *wor
 		fc.ReadBufferSize = 32 * 1024 // several long names / values per request also over the wire
 	}
 	app := fiber.New(fc)
+	// something in front of the middleware that already puts cookies on the response (a session or
+	// tracking middleware would); the handler behind may set the same names again
+	app.Use(func(c fiber.Ctx) error {
+		if c.Method() == "POST" {
+			for _, s := range w.upSet {
+				c.Cookie(&fiber.Cookie{Name: s.Name, Value: s.Value, Path: s.Path, HTTPOnly: s.HTTPOnly,
+					Secure: s.Secure, SameSite: s.SameSite, MaxAge: s.MaxAge})
+			}
+		}
+		return c.Next()
+	})
 	if withMW {
 		app.Use(mw.New(mw.Config{Key: key, Except: except}))
 	}
@@ -400,6 +412,33 @@ func script(e *ev.Env, c *ev.Case, keyRaw []byte, key string, except []string, c
 		w.failSet = []int{401, 500, 404}[c.R.Intn(3)]
 		wb.failSet = w.failSet
 		stat(e, "issue_by_failing_handler", 1)
+	}
+	if c.R.Chance(1, 3) {
+		// the upstream middleware has already set some of the names the handler is going to set
+		// (same value, another value, other attributes) and possibly one more cookie of its own
+		for _, si := range w.toSet {
+			if c.R.Bool() {
+				u := si
+				u.HTTPOnly, u.Secure, u.SameSite, u.MaxAge = false, false, "", 0
+				switch c.R.Intn(3) {
+				case 0:
+					u.Value = "up-" + uid(c.R, 4)
+				case 1:
+					u.Value = ""
+				}
+				if lossClass(u.Value) != "clean" || !strict.ValidCookieValue(u.Value) {
+					u.Value = "up-" + uid(c.R, 4) // what the upstream sets is not under test: keep it a plain cookie
+				}
+				w.upSet = append(w.upSet, u)
+			}
+		}
+		if c.R.Bool() {
+			w.upSet = append(w.upSet, setInstr{Name: "upstream-own", Value: "up-" + uid(c.R, 4), Path: "/"})
+		}
+		wb.upSet = w.upSet
+		if len(w.upSet) > 0 {
+			stat(e, "scripts_with_upstream_cookies_of_the_same_names", 1)
+		}
 	}
 	// the twin without the middleware only sets the excepted cookies (the others may be binary,
 	// which without encryption is not a parseable response at all)
@@ -687,13 +726,46 @@ var rawAttrs = []struct {
 	{"; Path=/; Expires=2037-10-21T07:28:00Z", true},
 }
 
+// exceptedRawLines: what a handler may hand-write for a cookie the front end reads in clear.
+// "%s" is the value; the line must leave exactly as written (the twin app without the middleware
+// is the reference).
+var exceptedRawLines = []string{
+	"%s; Path=/",
+	"\"%s\"; Path=/",
+	"\"%s\"",
+	" %s ; Path=/",
+	"%s; Path=/; Priority=High",
+	"%s; Priority=High; Path=/; SameSite=Lax; Partitioned",
+	"%s; PATH=/; httponly; SECURE; samesite=lax",
+	"%s; path=/;Secure;HttpOnly",
+	"%s; HttpOnly; Secure; Path=/; Domain=example.com; Max-Age=60",
+	"%s; Max-Age=-1; Path=/",
+	"%s; Expires=Wednesday, 21-Oct-37 07:28:00 GMT; Path=/",
+	"%s; Expires=Wed, 21 Oct 2037 07:28:00 GMT",
+	"%s; SameSite=none; Path=/a/b",
+	"%s;Path=/",
+	"%s; ; Path=/",
+	"%s; path=/; foo; bar=baz",
+}
+
 func rawline(e *ev.Env, c *ev.Case, fixed int) {
 	r := c.R
 	keyRaw, key := genKey(r)
 	names := pickNames(r, 3)
 	except := []string{names[2]}
 	w := &world{}
+	wTwin := &world{}
 	app := newApp(key, except, true, w)
+	twin := newApp(key, except, false, wTwin)
+	exLine := ""
+	if fixed < 0 || fixed >= len(rawAttrs) {
+		ei := r.Intn(len(exceptedRawLines))
+		if fixed >= len(rawAttrs) {
+			ei = fixed - len(rawAttrs)
+			fixed = 1
+		}
+		exLine = names[2] + "=" + fmt.Sprintf(exceptedRawLines[ei], "x"+r.StringFrom(cookieSafe, r.Range(1, 12)))
+	}
 	ai := r.Intn(len(rawAttrs))
 	if fixed >= 0 {
 		ai = fixed
@@ -704,6 +776,14 @@ func rawline(e *ev.Env, c *ev.Case, fixed int) {
 	line := names[0] + "=" + core + ra.attrs
 	w.rawSet = []string{line}
 	w.toSet = []setInstr{{Name: names[1], Value: other, Path: "/"}}
+	if exLine != "" {
+		if r.Bool() {
+			w.rawSet = []string{line, exLine}
+		} else {
+			w.rawSet = []string{exLine, line}
+		}
+		wTwin.rawSet = []string{exLine}
+	}
 	cls := "ordinary-attributes"
 	if ra.odd {
 		cls = "attribute-the-cookie-parser-rejects"
@@ -718,6 +798,19 @@ func rawline(e *ev.Env, c *ev.Case, fixed int) {
 	e.Eval(1)
 	stat(e, "rawline_cases", 1)
 	cfg["response"] = printable(string(out))
+	if exLine != "" && bad == "" {
+		// excepted name, response direction: byte-identical to the same handler without the middleware
+		mt, _, badT := wireSet(twin, "/")
+		if badT == "" {
+			got, want := m[names[2]].line, mt[names[2]].line
+			if got != want {
+				e.Violation(c, "except|wire-set-cookie|altered", "Set-Cookie of an excepted name (written by the handler as a raw line) differs from the one without the middleware",
+					map[string]any{"config": cfg, "name": names[2], "handler_wrote": printable(exLine), "with": printable(got), "without": printable(want)})
+				return
+			}
+			stat(e, "rawline_excepted_line_identical", 1)
+		}
+	}
 	leak := ""
 	switch {
 	case bytes.Contains(out, []byte(core)):
@@ -1593,6 +1686,10 @@ func run(e *ev.Env) {
 			e.Corpus(fmt.Sprintf("rawline-odd-%d", i), func(c *ev.Case) { rawline(e, c, i) })
 		}
 	}
+	for i := range exceptedRawLines {
+		i := i
+		e.Corpus(fmt.Sprintf("rawline-excepted-%d", i), func(c *ev.Case) { rawline(e, c, len(rawAttrs)+i) })
+	}
 
 	// ---- generated ------------------------------------------------------------------------------
 	e.Cases("script", e.N(300, 20000), func(c *ev.Case) {
@@ -1658,7 +1755,7 @@ func run(e *ev.Env) {
 
 	if e.Only == "" {
 		for _, name := range []string{"wire_ciphertext_only", "nonce_fresh", "roundtrip_ok_clean", "except_wire_identical", "except_request_identical",
-			"tamper_rejected", "tamper_substitution", "tamper_truncation", "tamper_extension", "tamper_other-key", "multi_duplicate_names", "multi_single_ok", "rawline_odd_attribute_ciphertext_only", "long_cookie_over_4096"} {
+			"tamper_rejected", "tamper_substitution", "tamper_truncation", "tamper_extension", "tamper_other-key", "multi_duplicate_names", "multi_single_ok", "rawline_odd_attribute_ciphertext_only", "rawline_excepted_line_identical", "long_cookie_over_4096"} {
 			if seen[name] == 0 {
 				e.Inconclusive("never observed: " + name)
 			}
